@@ -3,14 +3,16 @@
 TIER=${1:-quick}; shift
 SEEDS=${@:-$(ls /verif/seeded | grep -E '^C[0-9]+-[0-9]+$')}
 OUT=/verif/seeded/MATRIX_$TIER.json
-cd /repo || exit 2
-if [ -n "$(git status --porcelain --untracked-files=no)" ]; then echo "/repo not clean"; exit 2; fi
+# runs on a scratch worktree of /repo HEAD (VERIF_REPO), so /repo itself and /verif/evidence are not touched
+WT=/root/scratch/mx_$$
+git -C /repo worktree add -q --detach "$WT" HEAD || exit 2
+trap 'git -C /repo worktree remove --force "$WT" >/dev/null 2>&1; rm -rf /root/scratch/mx_ev_$$' EXIT
 for S in $SEEDS; do
   P=${S%%-*}
-  git -C /repo apply "/verif/seeded/$S/patch.diff" || { echo "$S patch does not apply"; continue; }
+  git -C "$WT" apply "/verif/seeded/$S/patch.diff" || { echo "$S patch does not apply"; continue; }
   s=$(date +%s)
-  (cd /verif && ./check "$P" --tier "$TIER" > "/root/scratch/try_$S.log" 2>&1); rc=$?
-  git -C /repo checkout -- .
+  (cd /verif && VERIF_REPO="$WT" VERIF_EVIDENCE_DIR=/root/scratch/mx_ev_$$ VERIF_REPLAY_DIR=/root/scratch/mx_replays ./check "$P" --tier "$TIER" > "/root/scratch/try_$S.log" 2>&1); rc=$?
+  git -C "$WT" checkout -- .
   w=$(( $(date +%s) - s ))
   inst=$(grep -m1 'instance=' /root/scratch/try_$S.log | sed 's/^ *//')
   echo "SEED $S tier=$TIER exit=$rc wall=${w}s $inst"
@@ -24,5 +26,3 @@ m = f"/verif/seeded/{seed}/meta.json"
 md = json.load(open(m)); md.setdefault("detection", {})[tier] = d[seed]; json.dump(md, open(m, "w"), indent=1)
 PY
 done
-# evidence files were rewritten by runs on a patched tree: they must be regenerated on the clean tree before committing
-echo "NOTE: re-run the checks on the clean tree to regenerate /verif/evidence"
